@@ -6,6 +6,7 @@ import (
 	"errors"
 	"fmt"
 	"math"
+	"runtime/metrics"
 	"strings"
 	"time"
 
@@ -441,7 +442,30 @@ func runC01(c *rt.Ctx) {
 	}
 	years = append(years, 999999999, 999999998, 500000000, 123456789, 100004, 99996, 400000, 400004)
 	nSeeded := c.Pick(20000, 2000000)
-	for _, limit := range []int{0, 11, 12, 13, 14, 15, math.MaxInt32, math.MaxInt, math.MaxInt - 1} { // raised a little, raised "to infinity", disabled
+	// the limit raised "to infinity": a short list of dates (a limit-sized allocation per call would take minutes on
+	// the full stream; one probed call decides whether the list is run under that limit)
+	for _, limit := range []int{math.MaxInt, math.MaxInt - 1, math.MaxInt32, 1 << 30} {
+		date.MaxInputLength = limit
+		c.Serial(fmt.Sprintf("limit-raised-to-%d", limit), func(w *rt.W) {
+			sample := []metrics.Sample{{Name: "/gc/heap/allocs:bytes"}}
+			metrics.Read(sample)
+			before := sample[0].Value.Uint64()
+			_, _ = date.DefaultParser("2021-03-04", 0)
+			metrics.Read(sample)
+			if sample[0].Value.Uint64()-before > 1<<26 {
+				c.Extra(fmt.Sprintf("limit_%d_skipped", limit), "one parse allocated more than 64 MiB under this limit; the date list was not run (C18 judges allocation)")
+				return
+			}
+			st := &c01State{}
+			for _, ymd := range [][3]int64{{2021, 3, 4}, {0, 1, 1}, {9999, 12, 31}, {10000, 1, 1}, {123456, 7, 8}, {999999999, 12, 31}, {2000, 2, 29}, {99999, 2, 28}} {
+				c01Case(w, st, ymd[0], int(ymd[1]), int(ymd[2]), true)
+				c01Case(w, st, ymd[0], int(ymd[1]), int(ymd[2]), true)
+			}
+			w.ClassN("limit-raised-to-the-maximum", 1)
+		})
+	}
+	c.Require("limit-raised-to-the-maximum", 1)
+	for _, limit := range []int{0, 11, 12, 13, 14, 15} {
 		date.MaxInputLength = limit
 		c.Parallel(fmt.Sprintf("bigyears-%d", limit), 0, func(w *rt.W) {
 			st := &c01State{}
